@@ -234,7 +234,8 @@ SHAPES = [t for n in range(2, 8) for t in tree_shapes(n)]
 
 
 QUERIES_SMALL = ["$..[*]", "$..*", "$.*", "$[*]", "$..a", "$..[0]", "$..[?@]", "$..[*,*]", "$..[0,*]", "$.*.*", "$[*]..[*]", "$..[?@.a]", "$..[?@[0]]", "$[?@]..*",
-                 "$..[?@ == 1]", "$..[::-1]", "$..['a','b']", "$.*[*]", "$..[?count(@.*) > 0]", "$[*,*]"]
+                 "$..[?@ == 1]", "$..[::-1]", "$..['a','b']", "$.*[*]", "$..[?count(@.*) > 0]", "$[*,*]",
+                 "$..[?@ == $[0]]", "$..[?$.a]", "$..[?@.a == $.a]", "$..[?count($..*) > 2]", "$..[?@ != $.b]", "$[*]..[?$[0]]"]
 
 
 def plan(tier, seed, nproc, scale):
@@ -261,7 +262,7 @@ def run_shard(spec, rec):
     one(rec, R, nd, det, abn, orders, "$..[*]", [[[1], [2]], [3]], spec["max_leaves"], exhaustive=True)
     for i in range(spec["small"]):
         if i % 2 == 0:
-            text = R.choice(["$..[*]", "$..*", "$..[0]", "$..[?@]", "$[*]..[*]", "$..[*]..[0]"])
+            text = R.choice(["$..[*]", "$..*", "$..[0]", "$..[?@]", "$[*]..[*]", "$..[*]..[0]", "$..[?@ == $[0][0]]", "$..[?$[1]]"])
             doc = dictify(R, D.deep_copy(R.choice(SHAPES)), R.choice([0.0, 0.0, 0.3]))
             rec.feat("small:tree-shape")
         else:
